@@ -7,7 +7,7 @@ MC = """SPECIFICATION Spec
 CONSTANTS MinMtu = 128 MaxCap = 65536 MaxDepth = %d
 CONSTRAINT Constr
 VIEW View
-INVARIANTS RootStrategy RoutesOnExistingFaces MtuSane
+INVARIANTS RootStrategy RoutesOnExistingFaces MtuSane OnlyAuthorised
 PROPERTY P_C17auth
 CHECK_DEADLOCK FALSE
 """
@@ -26,8 +26,8 @@ def run(pid, tier, replay=None):
     th = tier == "thorough"
     try:
         return V.pipeline(
-            pid, tier, replay, "mgmt", mc_runs=[("d2", "MgmtMC.tla", MC % (3 if th else 2), 8, 2400)], gens=[],
-            drivers=[("TestMgmtGen", {"VERIF_N": 400 if th else 48, "VERIF_LEN": 30 if th else 25}, ["mgmt.ndjson"])],
+            pid, tier, replay, "mgmt", mc_runs=[("hist", "MgmtMC.tla", MC % (6 if th else 4), 8, 2400)], gens=[],
+            drivers=[("TestMgmtGen", {"VERIF_N": 1500 if th else 48, "VERIF_LEN": 30 if th else 25}, ["mgmt.ndjson"])],
             replay_driver=("TestMgmtReplay", "VERIF_REPLAY", "mgmt.ndjson"), trace_module="MgmtTrace.tla", trace_head=HEAD,
             props=PROPS, invs=INVS, nontrivial=nontrivial,
             rule_text="a whole node in one synctest bubble: the real management thread on its internal face, a real forwarding thread (so the /localhost and "
